@@ -70,7 +70,7 @@ impl Prop for InputForms {
         12000
     }
     fn cases(&self, tier: Tier) -> u32 {
-        tier.pick(1_000, 25_000)
+        tier.pick(3_000, 50_000)
     }
     fn decode(&self, t: &mut Tape, _: Tier) -> FormsCase {
         let n = if t.chance(0.7) { *t.pick(&[1usize, 2, 3, 5, 8, 13]) } else { t.below(14) };
@@ -254,7 +254,7 @@ impl Prop for Corruptions {
         12000
     }
     fn cases(&self, tier: Tier) -> u32 {
-        tier.pick(6_000, 250_000)
+        tier.pick(30_000, 600_000)
     }
     fn decode(&self, t: &mut Tape, _: Tier) -> CorruptCase {
         let n = t.urange(1, 6);
